@@ -24,7 +24,8 @@ class V:
         return hash(s.e)
 
     def __call__(s, *a):
-        return None
+        # as a factory / handler: every fourth one declines (returns None), the others build an adapter that names them
+        return None if s.i % 4 == 0 else ("res", s.i)
 
     def __bool__(s):
         # every fifth component / factory / handler is FALSY (an empty container-like component is a legal one)
@@ -150,7 +151,18 @@ def run(lines, out, args):
                         raise AssertionError("accepted")
                     if nm.startswith("@"):
                         v.__component_name__ = nm[1:]           # the name is not passed: it comes from the component
-                    if op == "regU" and nm.startswith("@"):
+                    if op == "regU" and f[2].startswith("^"):
+                        # `provided` is not passed: it is what the component itself provides
+                        from zope.interface import directlyProvides
+                        directlyProvides(v, ifs[int(f[2][1:])])
+                        try:
+                            if nm.startswith("@"):
+                                c.registerUtility(v, info=f[4])
+                            else:
+                                c.registerUtility(v, name=f[3], info=f[4])
+                        finally:
+                            directlyProvides(v)
+                    elif op == "regU" and nm.startswith("@"):
                         c.registerUtility(v, ifs[int(f[2])], info=f[4])
                     elif op == "regU":
                         c.registerUtility(v, ifs[int(f[2])], f[3], f[4])
@@ -220,9 +232,78 @@ def run(lines, out, args):
             elif op == "qU":
                 u = c.queryUtility(ifs[int(f[1])], f[2])
                 got = "N" if u is None else str(u.i)
+                # the other utility query methods must say the same
+                marker = object()
+                notes = []
+                if c.queryUtility(ifs[int(f[1])], f[2], marker) is not (marker if u is None else u):
+                    notes.append("queryUtility-default")
+                try:
+                    g = c.getUtility(ifs[int(f[1])], f[2])
+                    if u is None or g is not u:
+                        notes.append("getUtility")
+                except R.ComponentLookupError:
+                    if u is not None:
+                        notes.append("getUtility-raised")
+                if notes:
+                    got += " API-DISAGREE " + ",".join(notes)
             elif op == "qA":
-                a = c.adapters.lookup(tuple(ifs[int(x)] for x in f[1].split()), ifs[int(f[2])], f[3])
+                specs = [ifs[int(x)] for x in f[1].split()]
+                a = c.adapters.lookup(tuple(specs), ifs[int(f[2])], f[3])
                 got = "N" if a is None else str(a.i)
+                # the object-level query methods on objects providing exactly those specifications: what the factory found by the
+                # lookup builds when called with the objects, the default / ComponentLookupError when there is none or it declines
+                from zope.interface import directlyProvides
+
+                class Ob:
+                    pass
+                obs = []
+                for x in f[1].split():
+                    if x == "5":
+                        obs.append(st["K"]())
+                    elif x == "6":
+                        obs.append(object())
+                    else:
+                        o = Ob()
+                        if x != "0":
+                            directlyProvides(o, ifs[int(x)])
+                        obs.append(o)
+                exact = all(x in ("3", "4", "5", "6") for x in f[1].split())
+                if exact:
+                    a2 = c.adapters.lookup([R.providedBy(o) for o in obs], ifs[int(f[2])], f[3])
+                    want = None if a2 is None else a2(*obs)
+                    marker = object()
+                    notes = []
+                    P, nm = ifs[int(f[2])], f[3]
+                    qm = c.queryMultiAdapter(obs, P, nm, marker)
+                    if qm != (marker if want is None else want):
+                        notes.append("queryMultiAdapter")
+                    try:
+                        gm = c.getMultiAdapter(obs, P, nm)
+                        if want is None or gm != want:
+                            notes.append("getMultiAdapter")
+                    except R.ComponentLookupError:
+                        if want is not None:
+                            notes.append("getMultiAdapter-raised")
+                    if len(obs) == 1:
+                        if c.queryAdapter(obs[0], P, nm, marker) != (marker if want is None else want):
+                            notes.append("queryAdapter")
+                        try:
+                            ga = c.getAdapter(obs[0], P, nm)
+                            if want is None or ga != want:
+                                notes.append("getAdapter")
+                        except R.ComponentLookupError:
+                            if want is not None:
+                                notes.append("getAdapter-raised")
+                    alln = dict(c.adapters.lookupAll([R.providedBy(o) for o in obs], P))
+                    wantall = sorted((n_, fa(*obs)) for n_, fa in alln.items() if fa(*obs) is not None)
+                    if sorted(c.getAdapters(obs, P)) != wantall:
+                        notes.append("getAdapters")
+                    subs = c.adapters.subscriptions([R.providedBy(o) for o in obs], P)
+                    wantsubs = [r_ for r_ in (s_(*obs) for s_ in subs) if r_ is not None]
+                    if list(c.subscribers(obs, P)) != wantsubs:
+                        notes.append("subscribers")
+                    if notes:
+                        got += " API-DISAGREE " + ",".join(notes)
             elif op == "allU":
                 got = " ".join(str(x.i) for x in c.getAllUtilitiesRegisteredFor(ifs[int(f[1])]))
             elif op == "forU":
